@@ -587,6 +587,23 @@ def run_c03(ctx, g):
                     cases.append((len(cases), c, pc, cuts, "split"))
         if not ctx.thorough and len(cases) > 5000:
             cases = rng.sample(cases, 5000)
+        # a configuration in which a velocity-bin value (24 with 8 bins) coincides with a note value: running values
+        # carried under a wrong key only show then.  The model's pieces with quiet first notes, every partition.
+        collide = dict(cfgs[0], nbins=8, running=True, fuseVal=False, fuseVel=False, fuseTrk=True)
+        for k, pc in enumerate(g["pieces"]):
+            if sum(len(t) for t in pc["tracks"]) < 2 or k % (1 if ctx.thorough else 3):
+                continue
+            quiet = {"tracks": [[dict(n, v=20 if (n["s"] < 96) else n["v"]) for n in tr] for tr in pc["tracks"]],
+                     "sigs": pc["sigs"], "end": pc["end"], "cap": pc["cap"], "bars": pc["bars"]}
+            t, sig, lines = 0, (4, 4), []
+            while t < pc["end"]:
+                for s_ in sorted(pc["sigs"]):
+                    if s_[0] <= t:
+                        sig = (s_[1], s_[2])
+                t += 96 * sig[0] // sig[1]
+                lines.append(t)
+            if len(lines) > 1:
+                cases.append((len(cases), collide, quiet, lines[:-1], False))
         for k in range(20000 if ctx.thorough else 2500):
             c = random_cfg(rng)
             c["values"] = [4, 6, 8, 9, 12, 16, 18, 24, 36]       # bars are re-quantised to the default note values
